@@ -9,6 +9,7 @@ from ..core.ctx import DOCPARSER, GEN, GETAPI, HELPERS, TYPES_MOD, VISITOR, WALK
 from ..core.report import Collector
 from ..core.source import AnalysisError
 from .common import GENCLS, apps, fmt_facts, gen_state, mentions, render
+from .visitor_model import parent_obj, visitor_state
 
 REC_V = "self.mypy_type_to_abstract_type"
 REC_G = "self._create_type_string"
@@ -378,6 +379,23 @@ def check(ctx: Ctx, col: Collector, tier: str) -> None:
             probs.append(f"plain class -> {o.value!r}")
     (col.ok if not probs else col.bad)("C05.CTOR-TABLE", key, repo.loc(VISITOR, vfi.node), "; ".join(probs) or "class with args -> NamedSequenceType, without -> NamedType(name, fullname)",
                                        *([] if not probs else [f"user class: {probs[0]}"]))
+    # a class of a library that could not be imported: mypy's Any records the *import* that failed (`numpy` for `import numpy as np`),
+    # the class is only spelled in the annotation (`np.ndarray`)
+    sta = State({"self": Sym("self")})
+    sta.eq[repr(Sym("mypy_type.type_of_any"))] = EnumM("TypeOfAny", "from_unimported_type")
+    aouts = ctx.interp(vfi).run_function(vfi, {"self": Sym("self"), "mypy_type": Sym("mypy_type", "AnyType"), "unanalyzed_type": Sym("unanalyzed_type", "UnboundType")}, sta)
+    named = [o.value for o in aouts if o.kind == "return" and isinstance(o.value, Obj) and o.value.cls == "sds.NamedType" and o.value.get("name") != Const("Any")]
+    from_import_only = [v for v in named if "missing_import_name" in repr(v.get("name")) and "unanalyzed_type" not in repr(v.get("name"))]
+    key = f"{vkey}::AnyType:from_unimported_type::name"
+    if named and not from_import_only:
+        col.ok("C05.CTOR-TABLE", key, repo.loc(VISITOR, vfi.node), "the name of a class of an unimportable library is taken from the annotation")
+    elif named:
+        col.bad("C05.CTOR-TABLE", key, repo.loc(VISITOR, vfi.node), f"name = {from_import_only[0].get('name')!r}"[:160],
+                "a class of a library that is not installed, referenced through its module (`import numpy as np; def f(a: np.ndarray)`), is named after the last segment of mypy's "
+                "missing_import_name, which is the import that failed (`numpy`), not the class: the stub says `a: numpy`, a type that is neither imported nor declared "
+                "(`from numpy import ndarray; b: ndarray` is right)")
+    else:
+        col.ok("C05.CTOR-TABLE", key, repo.loc(VISITOR, vfi.node), "no named type is built for unimportable classes", nontrivial=False)
     # Final[T]: mypy strips the qualifier, the analysed type is that of T; the unanalysed argument is an UnboundType, for which the translator
     # only understands scalars, list/set and classes of the same module
     stf = State({"self": Sym("self")})
@@ -449,11 +467,58 @@ def check(ctx: Ctx, col: Collector, tier: str) -> None:
             col.ok("C05.POSITIONS", key, repo.loc(mod, calls[0]), f"{pos}: {len(calls)} call(s) of {callee}")
         else:
             col.bad("C05.POSITIONS", key, repo.loc(mod, fi.node), f"no call of {callee}", f"the {pos} position no longer goes through {callee}: types there are translated differently or not at all")
+    # an annotated attribute is translated whatever the annotation's kind (the callable exemption is meant for `f = some_function`)
+    cafi = repo.function(VISITOR, "MyPyAstVisitor._create_attribute")
+    var = Obj("Var", (("type", Sym("attr_type", "CallableType")), ("fullname", Const("pkg.mod.W.handler")), ("explicit_self_type", Const(False)), ("name", Const("handler"))))
+    attr_expr = Obj("NameExpr", (("name", Const("handler")), ("fullname", Const("pkg.mod.W.handler")), ("node", var)))
+    couts = ctx.interp(cafi).run_function(cafi, {"self": Sym("self"), "attribute": attr_expr, "unanalyzed_type": Sym("annotation", "UnboundType"), "is_static": Const(True)},
+                                          visitor_state((parent_obj("Module"), parent_obj("Class"))))
+    untyped = typed = 0
+    for o in couts:
+        if o.kind != "return" or not isinstance(o.value, Obj):
+            continue
+        t = o.value.get("type")
+        if t == Const(None):
+            untyped += 1
+        elif isinstance(t, App) and t.func == REC_V:
+            typed += 1
+    key = f"{VISITOR}::MyPyAstVisitor._create_attribute::annotated-callable"
+    if typed and not untyped:
+        col.ok("C05.POSITIONS", key, repo.loc(VISITOR, cafi.node), "an attribute annotated with a callable type is translated like any other annotation")
+    else:
+        col.bad("C05.POSITIONS", key, repo.loc(VISITOR, cafi.node), f"paths with a translated type: {typed}, without a type: {untyped}",
+                "an attribute whose annotation is a callable type gets no type: `handler: Callable[[int], str]` (class attribute, `self.cb: Callable[[int], str] = cb`, dataclass field) is emitted as "
+                "`attr handler` with the 'no type information' marker, while the same annotation is translated as parameter, result, property and inside Optional[...] / list[...]")
+    # a property whose annotation is a tuple has one result per element (C07); together they are a tuple, not alternatives
+    prfi = repo.function(GEN, f"{GENCLS}._create_property_function_string")
+    two = ListV((Obj("Result", (("type", Sym("R1.type")), ("name", Const("result_1")))), Obj("Result", (("type", Sym("R2.type")), ("name", Const("result_2"))))))
+    fobj = Obj("Function", (("name", Sym("F.name")), ("docstring", Sym("F.docstring")), ("results", two)))
+    st_p = gen_state()
+    st_p.neq[repr(Sym("R1.type"))] = {Const(None)}
+    st_p.neq[repr(Sym("R2.type"))] = {Const(None)}
+    pouts = ctx.interp(prfi).run_function(prfi, {"self": Sym("self"), "function": fobj, "indentations": Const("")}, st_p)
+    joined = set()
+    for o in pouts:
+        for e in o.effects:
+            if e.kind == "call" and e.target == REC_G and e.args:
+                a0 = e.args[0]
+                if isinstance(a0, DictV):
+                    kinds = [v for k, v in a0.items if k == Const("kind")]
+                    joined |= {k.v if isinstance(k, Const) else repr(k) for k in kinds}
+                for x in walk_av(a0):
+                    if isinstance(x, Obj) and x.cls.split(".")[-1] in ("UnionType", "TupleType", "ListType"):
+                        joined.add(x.cls.split(".")[-1])
+    key = f"{GEN}::{GENCLS}._create_property_function_string::several-results"
+    if joined == {"TupleType"}:
+        col.ok("C05.POSITIONS", key, repo.loc(GEN, prfi.node), "the results of a property are joined as a tuple")
+    else:
+        col.bad("C05.POSITIONS", key, repo.loc(GEN, prfi.node), f"two results are joined as {sorted(joined) or 'nothing recognisable'}",
+                f"a property annotated `-> tuple[int, str]` has two results (one per element); the generator joins them as {sorted(joined)}: the attribute is emitted as `union<Int, String>` "
+                f"(`tuple[int, int]` even as a single `Int`) and without the tuple marker (C20), while a plain attribute with the same annotation is a `Tuple<Int, String>`")
     # ------------------------------------------------------------------ SAME-SUBJECT: the rendered type of an element is
     # the translator applied to *that element's* type dictionary (no cache / lookup keyed by type equality in between)
     from .c06 import KINDS, PA, param_obj
     from .common import find_loops, new_effects, run_body, sym_is
-    from ..core.absint import EnumM
 
     def type_holes_ok(template: AV, subject: str) -> tuple[bool, str]:
         """Every translator application in the template is applied to <subject>.type's own to_dict; and the text
